@@ -37,5 +37,9 @@ func LogSub(a, b float64) float64 {
   if math.IsInf(b, -1) {
     return a
   }
+  if d := b - a; d > -math.Ln2 {
+    // exp(d) is close to 1: 1 - exp(d) must not be formed by subtraction
+    return a + math.Log(-math.Expm1(d))
+  }
   return a + math.Log1p(-math.Exp(b-a))
 }
